@@ -6,7 +6,7 @@ CONSTANTS
   ServerName = "localhost"
   ServerPort = 70
   HiCode = "FF"
-  Fixes = {"wap", "gemini", "mapfile"}
+  Fixes = {"wap", "gemini", "mapfile", "spartan"}
 CONSTRAINT Record
 POSTCONDITION Post
 CHECK_DEADLOCK FALSE
